@@ -22,6 +22,8 @@ pub enum Step {
     Reopen,
     /// ask has_news_for_us with a report: (author slot 0..8, timestamp offset)
     News(Vec<(u8, u8)>),
+    /// an operation on another part of the store
+    Noise(Noise),
 }
 
 #[derive(Serialize, Deserialize, Clone, Debug)]
@@ -104,6 +106,7 @@ impl Prop for C13 {
             1 => Just(Step::RemoveAndRecreate),
             1 => Just(Step::Reopen),
             3 => vec((0u8..8, 0u8..8), 0..=4).prop_map(Step::News),
+            2 => crate::gen::noise().prop_map(Step::Noise),
         ];
         let hist = (prop::bool::weighted(0.2), pools(6), vec(step, 1..=max_steps))
             .prop_map(|(file, pools, steps)| Case::History(History { file, pools, steps }));
@@ -287,6 +290,7 @@ fn check_history(ctx: &mut Ctx, h: &History) -> Outcome {
         verif::set_clock(Some(T0 + 3));
         // two more documents in the same store (ids on both sides are likely): their heads must never be disturbed
         let mut bystanders = vec![];
+        let mut noise_state = NoiseState::default();
         for d in 1..=2u8 {
             let other = namespace((h.pools.ns + d) % N_NAMESPACES as u8).clone();
             let es_: Vec<SignedEntry> = (0..3u8).map(|j| sign(&other, &ESpec { a: j % 2, k: vec![b'o', j], t: T0 + (5 - j) as u64, c: 1 })).collect();
@@ -335,6 +339,15 @@ fn check_history(ctx: &mut Ctx, h: &History) -> Outcome {
                 }
                 Step::Reopen => {
                     st = st.reopen()?;
+                }
+                Step::Noise(nz) => {
+                    if ns != noise_namespace().id() {
+                        if let Err(e) = apply_noise(&ctx.rt, &mut st.store, nz, &mut noise_state) {
+                            o.fail("C13/noise", format!("{:?}: {e}", nz));
+                            break;
+                        }
+                        o.class("noise-on-other-parts-of-the-store");
+                    }
                 }
                 Step::News(report) => {
                     let d = dump(&mut st.store, ns)?;
